@@ -8,6 +8,8 @@ defining CHECK = {...}. Keys:
   assumptions    list of strings (evidence)
   campaigns      list of {test, checks:{quick,thorough}, shards:{quick,thorough}?, timeout:{quick,thorough}? (s),
                  steps?, shrinktime?, mem_gb?, env?, tiers?, fixed?:bool, death_is_violation?, timeout_is_violation?}
+                 a campaign {fuzz: <FuzzName>, fuzztime: {thorough: seconds}, tiers: [...]} is a native go fuzz campaign: a second binary
+                 is built with coverage instrumentation and run after the rapid shards on all cores for the given time
   race           build with -race
   rewrites       [{file, pattern, replacement}] build-time source rewrites derived from the current tree
   extra_builds   [{pkg, out}] additional binaries built into build/<ID>/
